@@ -44,11 +44,11 @@ def gen_case(rng, tier, idx):
         spec = gen_mdp_spec(rng, **_size(rng), proper=True, discounts=(0.5, 0.8, 0.9), rewards=(-2.0, -1.0, -1.0, 0.0, 1.0, 0.5, 2.0))
     else:
         edge = rng.random()
-        spec = gen_mdp_spec(rng, **_size(rng), proper=True, discounts=(0.999,) if edge < 0.02 else (0.5, 0.8, 0.9, 0.95, 1.0),
+        spec = gen_mdp_spec(rng, extreme=True, **_size(rng), proper=True, discounts=(0.999,) if edge < 0.02 else (0.5, 0.8, 0.9, 0.95, 1.0),
                             rewards=(0.0,) if 0.02 <= edge < 0.04 else None)
     q0 = rng.choice((dict(kind='const', v=0.0), dict(kind='const', v=-1.0), dict(kind='const', v=2.5),
                      dict(kind='fn', base=rng.choice((0.0, -1.0, 1.0)), spread=0.25)))
-    cfg = dict(learner=rng.choice(LEARNERS), episodes=rng.randint(1, 6) if rng.random() < 0.98 else 0, step_size=rng.choice((0, 0.1, 0.5, 1.0, 0.3)),
+    cfg = dict(learner=rng.choice(LEARNERS), episodes=rng.randint(1, 6) if rng.random() < 0.98 else 0, step_size=rng.choice((0, 0.1, 0.5, 1.0, 0.3, 1e-6)),
                rand_choose=rng.choice((0, 0.0, 0.1, 0.5, 1.0)), softmax_temp=temp, q0=q0, seed=rng.choice((0, 1, 7, 12345, None)),
                reentrant=rng.random() < 0.25, reuse=rng.randrange(1000) if rng.random() < 0.15 else None,
                alias=rng.choice(('fresh', 'fresh', 'cached', 'shared', 'tuple')), explicit_lists=rng.random() < 0.15,
